@@ -1,5 +1,6 @@
 import SurfModel.Proto
 import SurfModel.Sixel
+import SurfModel.SixelDraw
 def main : IO Unit := SurfModel.Proto.serve fun
-  | "c12" :: rest => SurfModel.Sixel.handle rest
+  | "c12" :: rest => SurfModel.SixelDraw.handle rest
   | _ => "bad-op"
